@@ -1,4 +1,7 @@
 -- Root of the `GolibsVerif` library: models, specs, lemmas, theorems.
 import GolibsVerif.Go.Basic
+import GolibsVerif.Go.Strings
 import GolibsVerif.Model.C15
 import GolibsVerif.Theorems.C15
+import GolibsVerif.Model.NetAddr
+import GolibsVerif.Theorems.C03
